@@ -70,28 +70,30 @@ def gridPower (t : GCType) (points : Nat) : Nat :=
   | .onePoint => Num.floorNat (Num.log (((points + 1 : Nat) : α)) / Num.log ((2 : Nat) : α))
   | .twoPoint => Num.floorNat (Num.log (((points + 2 : Nat) : α) / ((3 : Nat) : α)) / Num.log ((2 : Nat) : α))
 
+/-- one iteration n of the loop of `initGrid`: stores node n and its mirror, then advances the trigonometric recurrence -/
+def gridStep (maxN : Nat) (z1 c1 s1 o23pi : α) (acc : Array α × Array α × (α × α × α)) (n : Nat) :
+    Array α × Array α × (α × α × α) :=
+  let (x, w, tr) := acc
+  let (zi, si, ci) := tr
+  let w := w.set! (maxN - 1 - n) (nodeW si)
+  let w := w.set! n (nodeW si)
+  let xn : α := nodeX o23pi zi si ci
+  let x := x.set! (maxN - 1 - n) xn
+  let x := x.set! n (-xn)
+  (x, w, trigStep z1 c1 s1 tr)
+
 /-- `initGrid(points, t)` -/
-def initGrid (points : Nat) (t : GCType) : Grid α := Id.run do
+def initGrid (points : Nat) (t : GCType) : Grid α :=
   let maxN := gridSize t (gridPower (α := α) t points)
   let M := (maxN - 1) / 2
-  let mut x : Array α := Array.replicate maxN 0
-  let mut w : Array α := Array.replicate maxN 0
-  x := x.set! M 0
-  w := w.set! M 1
+  let x0 : Array α := (Array.replicate maxN 0).set! M 0
+  let w0 : Array α := (Array.replicate maxN 0).set! M 1
   let z1 : α := Num.pi / ((maxN + 1 : Nat) : α)
   let c1 := Num.cos z1
   let s1 := Num.sin z1
   let o23pi : α := ((2 : Nat) : α) / (((3 : Nat) : α) * Num.pi)
-  let mut tr : α × α × α := (z1, s1, c1)
-  for n in [0:M] do
-    let (zi, si, ci) := tr
-    w := w.set! (maxN - 1 - n) (nodeW si)
-    w := w.set! n (nodeW si)
-    let xn : α := nodeX o23pi zi si ci
-    x := x.set! (maxN - 1 - n) xn
-    x := x.set! n (-xn)
-    tr := trigStep z1 c1 s1 tr
-  return { t := t, maxN := maxN, M := M, x := x, w := w }
+  let r := (List.range M).foldl (gridStep maxN z1 c1 s1 o23pi) (x0, w0, (z1, s1, c1))
+  { t := t, maxN := maxN, M := M, x := r.1, w := r.2.1 }
 
 /-- `sumTerms(f, limit, start, end, shift, skip)`; `f ix` is `f(x[ix], params, ix)` -/
 def sumTerms (g : Grid α) (f : Nat → α) (limit start stop shift skip : Nat) : α :=
@@ -99,64 +101,81 @@ def sumTerms (g : Grid α) (f : Nat → α) (limit start stop shift skip : Nat) 
     let v := if p.1 ≥ start then v + g.w[p.1]! * f p.1 else v
     if p.2 ≤ stop then v + g.w[p.2]! * f p.2 else v) 0
 
+/-- state of the one-point loop of `integrate`: (Tn, Tn12, T2n1, n, p, converged) -/
+structure OneSt (α : Type) where
+  Tn : α
+  Tn12 : α
+  T2n1 : α
+  n : Nat
+  p : Nat
+  conv : Bool
+
+/-- `while (n < maxN && !converged) { … }` of the one-point (Perez92) scheme, with `fuel` iterations left -/
+def onePointLoop (g : Grid α) (f : Nat → α) (tol : α) (start stop : Nat) : Nat → OneSt α → OneSt α
+  | 0, s => s
+  | fuel + 1, s =>
+    if s.n < g.maxN && !s.conv then
+      let T2n1 := s.Tn + sumTerms g f s.n start stop s.p 2
+      let dT := T2n1 - ((2 : Nat) : α) * s.Tn
+      let n := 2 * s.n + 1
+      if dT * dT ≤ Num.abs (T2n1 - s.Tn12) * tol then
+        onePointLoop g f tol start stop fuel { s with T2n1 := T2n1, n := n, conv := true }
+      else
+        onePointLoop g f tol start stop fuel
+          { Tn := T2n1, Tn12 := ((4 : Nat) : α) * s.Tn, T2n1 := T2n1, n := n, p := s.p / 2, conv := false }
+    else s
+
+/-- state of the two-point loop: (Tn12, Tn, Tm, T2m1, p, M2, n, m, converged) -/
+structure TwoSt (α : Type) where
+  Tn12 : α
+  Tn : α
+  Tm : α
+  T2m1 : α
+  p : Nat
+  M2 : Nat
+  n : Nat
+  m : Nat
+  conv : Bool
+
+/-- `while (m < maxN && !converged) { … }` of the two-point (Perez93) scheme, with `fuel` iterations left -/
+def twoPointLoop (g : Grid α) (f : Nat → α) (tol : α) (start stop : Nat) : Nat → TwoSt α → TwoSt α
+  | 0, s => s
+  | fuel + 1, s =>
+    if s.m < g.maxN && !s.conv then
+      let T2m1 := s.Tm + s.Tn - s.Tn12 + sumTerms g f ((2 * s.m - 1) / 3) start stop s.M2 3
+      let err1 : α := ((16 : Nat) : α) * Num.abs (((1 : α) / ((2 : Nat) : α)) * T2m1 - s.Tm) / (((3 : Nat) : α) * ((s.m + 1 : Nat) : α))
+      if tol < err1 then
+        let T2n1 := s.Tn + sumTerms g f s.n start stop s.p 2
+        let err2 : α := ((16 : Nat) : α) * Num.abs (((2 : Nat) : α) * T2m1 - ((3 : Nat) : α) * T2n1) / (((18 : Nat) : α) * ((s.n + 1 : Nat) : α))
+        let m := 2 * s.m + 1
+        let n := 2 * s.n + 1
+        if err2 < tol then
+          twoPointLoop g f tol start stop fuel { s with T2m1 := T2m1, m := m, n := n, conv := true }
+        else
+          twoPointLoop g f tol start stop fuel
+            { Tn12 := s.Tn, Tn := T2n1, Tm := T2m1, T2m1 := T2m1, p := s.p / 2, M2 := s.M2 / 2, n := n, m := m, conv := false }
+      else
+        twoPointLoop g f tol start stop fuel { s with T2m1 := T2m1, m := 2 * s.m + 1, conv := true }
+    else s
+
 /-- `integrate(f, tolerance, start, end)` → (value, converged) -/
 def integrate (g : Grid α) (f : Nat → α) (tol : α) (start stop : Nat) : α × Bool :=
   let M := g.M
   let maxN := g.maxN
   match g.t with
-  | .onePoint => Id.run do
-      let mut Tn : α := g.w[M]! * f M
-      let mut Tn12 : α := ((2 : Nat) : α) * Tn
-      let mut T2n1 : α := 0   -- (uninitialised in the source when the loop does not run)
-      let mut n := 1
-      let mut p := (M + 1) / 2
-      let mut conv := false
-      let mut fuel := maxN + 2
-      while fuel > 0 && n < maxN && !conv do
-        fuel := fuel - 1
-        T2n1 := Tn + sumTerms g f n start stop p 2
-        let dT := T2n1 - ((2 : Nat) : α) * Tn
-        n := 2 * n + 1
-        if dT * dT ≤ Num.abs (T2n1 - Tn12) * tol then
-          conv := true
-        else
-          Tn12 := ((4 : Nat) : α) * Tn
-          Tn := T2n1
-          p := p / 2
-      return (((16 : Nat) : α) * T2n1 / (((3 : Nat) : α) * (((n : Nat) : α) + 1)), conv)
-  | .twoPoint => Id.run do
-      let mut Tn12 : α := 0
-      let mut Tn : α := g.w[M]! * f M
+  | .onePoint =>
+      let Tn : α := g.w[M]! * f M
+      -- (T2n1 is uninitialised in the source when the loop does not run; 0 here)
+      let s := onePointLoop g f tol start stop (maxN + 2)
+        { Tn := Tn, Tn12 := ((2 : Nat) : α) * Tn, T2n1 := 0, n := 1, p := (M + 1) / 2, conv := false }
+      (((16 : Nat) : α) * s.T2n1 / (((3 : Nat) : α) * (((s.n : Nat) : α) + 1)), s.conv)
+  | .twoPoint =>
       let M2a := (maxN - 2) / 3
-      let mut Tm : α := g.w[M2a]! * f M2a + g.w[maxN - M2a - 1]! * f (maxN - M2a - 1)
-      let mut T2m1 : α := 0
-      let mut p := (M + 1) / 2
-      let mut M2 := (M2a + 1) / 2
-      let mut n := 1
-      let mut m := 2
-      let mut conv := false
-      let mut fuel := maxN + 2
-      while fuel > 0 && m < maxN && !conv do
-        fuel := fuel - 1
-        T2m1 := Tm + Tn - Tn12 + sumTerms g f ((2 * m - 1) / 3) start stop M2 3
-        let err1 : α := ((16 : Nat) : α) * Num.abs (((1 : α) / ((2 : Nat) : α)) * T2m1 - Tm) / (((3 : Nat) : α) * ((m + 1 : Nat) : α))
-        if tol < err1 then
-          let T2n1 := Tn + sumTerms g f n start stop p 2
-          let err2 : α := ((16 : Nat) : α) * Num.abs (((2 : Nat) : α) * T2m1 - ((3 : Nat) : α) * T2n1) / (((18 : Nat) : α) * ((n + 1 : Nat) : α))
-          m := 2 * m + 1
-          n := 2 * n + 1
-          if err2 < tol then
-            conv := true
-          else
-            Tn12 := Tn
-            Tn := T2n1
-            Tm := T2m1
-            p := p / 2
-            M2 := M2 / 2
-        else
-          m := 2 * m + 1
-          conv := true
-      return (((16 : Nat) : α) * T2m1 / (((3 : Nat) : α) * (((m : Nat) : α) + 1)), conv)
+      let s := twoPointLoop g f tol start stop (maxN + 2)
+        { Tn12 := 0, Tn := g.w[M]! * f M,
+          Tm := g.w[M2a]! * f M2a + g.w[maxN - M2a - 1]! * f (maxN - M2a - 1),
+          T2m1 := 0, p := (M + 1) / 2, M2 := (M2a + 1) / 2, n := 1, m := 2, conv := false }
+      (((16 : Nat) : α) * s.T2m1 / (((3 : Nat) : α) * (((s.m : Nat) : α) + 1)), s.conv)
 
 /-- `transformZeroInf`: x ↦ 1 − log(1−x)/ln 2, w ↦ w / (ln 2 · (1−x)) -/
 def transformZeroInf (g : Grid α) : Grid α :=
